@@ -291,8 +291,12 @@ func CheckC17(e *fw.Env, l *Lab) {
 	var lastDoc []byte
 	for h := 0; h < hists; h++ {
 		ctx, _ := l.Base.CacheContext()
-		if e.R.Intn(2) == 0 {
+		switch e.R.Intn(4) {
+		case 0, 1:
 			UpdateParams(w, ctx, 64)
+		case 2:
+			// any value the authority can set must survive the round trip
+			UpdateParams(w, ctx, paramEdges[e.R.Intn(len(paramEdges))])
 		}
 		sh := NewShadow()
 		steps := 60 + e.R.Intn(120)
@@ -323,6 +327,11 @@ func CheckC17(e *fw.Env, l *Lab) {
 			}
 			if e.R.Intn(2) == 0 {
 				PauseProtocol(w, ctx, "PROTOCOL_IBC")
+			}
+			// a protocol paused as a whole while some of its counterparties are paused too: two
+			// independent pieces of state
+			if e.R.Intn(2) == 0 {
+				PauseProtocol(w, ctx, []string{"PROTOCOL_CCTP", "PROTOCOL_HYPERLANE", "PROTOCOL_INTERNAL"}[e.R.Intn(3)])
 			}
 			if e.R.Intn(2) == 0 {
 				PauseAction(w, ctx, "ACTION_SWAP")
